@@ -35,7 +35,8 @@ THEOREMS['C04'] = ['FB.C04_exists_iff', 'FB.C04_not_both', 'FB.C04_listDir_iff',
                    'FB.C04_hidden', 'FB.C04_visible_elsewhere', 'FB.BuildDirs.run_inv', 'FB.BuildDirs.handleDirExists_inv',
                    'FB.BuildDirs.started_inv', 'FB.BuildDirs.error_inv', 'FB.BuildDirs.isRemoved_inv',
                    'FB.BuildDirs.C04_isRemoved_iff_gone', 'FB.BuildDirs.isRemoved_spec', 'FB.BuildDirs.checkMaybeRemoved_spec',
-                   'FB.BuildDirs.checkLoop_spec', 'FB.BuildDirs.handleDirExists_qinv', 'FB.BuildDirs.qreach_qinv']
+                   'FB.BuildDirs.checkLoop_spec', 'FB.BuildDirs.handleDirExists_qinv', 'FB.BuildDirs.qreach_qinv',
+                   'FB.Overlay.not_both', 'FB.Overlay.exists_eq', 'FB.Overlay.filterExisting_sub']
 THEOREMS['C02'] = ['FB.C02_rolledBack_frame', 'FB.C02_rolledBack_files', 'FB.C02_spec_build_raises', 'FB.Backups.restoreAll_spec',
                    'FB.Backups.restoreOne_self', 'FB.Backups.restoreOne_other', 'FB.Backups.backUp_file']
 THEOREMS['C14'] = ['FB.C14_fault_surfaces', 'FB.C02_spec_build_raises', 'FB.C02_rolledBack_files']
@@ -339,6 +340,10 @@ def check_C04(tier):
     from . import bdcheck
     probs = bdcheck.run(tier, rep)
     rep.count('correspondence_disagreements_builddirs', len(probs))
+    # ... and SimpleOperationExecutor on top of it, answer by answer
+    from . import ovcheck
+    oprobs = ovcheck.run(tier, rep, ds)
+    rep.count('correspondence_disagreements_overlay', len(oprobs))
     # a call that fails in its set-up must not stay "being built" (hidden) for the rest of the build
     fault_batch('C04', tier, rep, ds, (4, 100), (40, 2000), 104)
     cases = corpus_cases(ds)
@@ -355,6 +360,12 @@ def check_C04(tier):
                                         'no_longer_checks': 'FB.BuildDirs (run_inv) describes build_dirs.py',
                                         'case': p['case'], 'real': p['real'], 'model': p['model']},
                       note='build_dirs.py and FB.BuildDirs differ after %s' % json.dumps(p['case']['cmds'][-1]), no_input=True)
+    if oprobs and not rep.violations:
+        p = oprobs[0]
+        rep.violation('overlay_tie', {'property': 'C04', 'kind': 'correspondence-broken',
+                                      'no_longer_checks': 'FB.Overlay (not_both, exists_eq, filterExisting_sub) describes simple_operation_executor.py',
+                                      'case': p['case'], 'real': p['real'], 'model': p['model']},
+                      note='%s after %s' % (p['what'], json.dumps((p['case'].get('queries') or [None])[-1])), no_input=True)
     return finish('C04', rep, gate)
 
 
